@@ -390,8 +390,22 @@ class Interp:
                         ok = False
                         break
                 if ok:
-                    rec(i + 1, e3)
+                    self._tok_push()
+                    try:
+                        rec(i + 1, e3)
+                    finally:
+                        self._tok_pop()
         rec(0, env)
+
+    # execution-context tokens: a fresh one per function call and per loop / comprehension iteration.  A Signal remembers the
+    # stack at its creation; only an assignment executed under the very same stack is known to execute once for that signal.
+    def _tok_push(self):
+        st = self.__dict__.setdefault('ctx_tokens', [])
+        self.__dict__['_tok_n'] = self.__dict__.get('_tok_n', 0) + 1
+        st.append(self.__dict__['_tok_n'])
+
+    def _tok_pop(self):
+        self.__dict__.setdefault('ctx_tokens', [0]).pop()
 
     def e_ListComp(self, node, env):
         out = []
@@ -589,6 +603,7 @@ class Interp:
             self.callstack = self.callstack + [(self.curfile, getattr(node, 'lineno', self.curline))]
         self.curfile = fn.mod.relpath if fn.mod is not None else self.curfile
         self.depth += 1
+        self._tok_push()
         cfg_len = len(self.pycfg)
         if self.ir is not None:
             self.ir.helpers_inlined += 1
@@ -610,6 +625,7 @@ class Interp:
             return None
         finally:
             self.depth -= 1
+            self._tok_pop()
             del self.pycfg[cfg_len:]
             self.curfile, self.curline, self.callstack = saved
 
@@ -937,10 +953,13 @@ class Interp:
         try:
             for item in items:
                 self.assign_target(st.target, item, env, st)
+                self._tok_push()
                 try:
                     self.exec_block(st.body, env)
                 except ContinueEx:
                     continue
+                finally:
+                    self._tok_pop()
             else:
                 self.exec_block(st.orelse, env)
         except BreakEx:
@@ -965,10 +984,13 @@ class Interp:
                 if n > MAX_UNROLL:
                     self.opaque(st, 'while bound')
                     return
+                self._tok_push()
                 try:
                     self.exec_block(st.body, env)
                 except ContinueEx:
                     continue
+                finally:
+                    self._tok_pop()
         except BreakEx:
             pass
 
@@ -1138,8 +1160,10 @@ class Interp:
             return False                       # an element of a list / dict of Signals, not a plain local
         if _eq_sites(self.index, getattr(si, 'var_file', None) or self.curfile, nm) != 1:
             return False                       # assigned at more than one place (a default plus overrides): a real signal
-        if _eq_site_repeats(self.index, getattr(si, 'var_file', None) or self.curfile, nm):
-            return False                       # assigned inside a loop / helper: possibly many drivers
+        if getattr(si, 'ctx_tokens', None) != tuple(getattr(self, 'ctx_tokens', ())):
+            # assigned in another call or loop iteration than the one that created the signal (a closure / helper working
+            # on a signal handed in, a loop over states): the statement may execute several times for this one signal
+            return False
         fkey = getattr(si, 'var_file', None) or self.curfile
         ref = _signals_ref().get(fkey)
         if ref is None:
@@ -1164,11 +1188,6 @@ class Interp:
             return False
         if any(si.name in a.lhs_sigs() for a in self.ir.assigns):
             return False                       # already driven elsewhere
-        if (self.cur_states() or self.guard()) and len(getattr(self, 'cur_fn_stack', ())) > 1 and \
-                getattr(self.cur_fn_stack[-1], 'name', '') != 'elaborate':
-            # a local written under a condition from inside a helper / closure: the helper may be called from several
-            # places (the static count of assignment sites says nothing), and elsewhere the local is 0: a real signal
-            return False
         return True
 
     def add_statements(self, domain, v, node):
